@@ -138,6 +138,59 @@ pub struct Ctx {
     pub only: Option<String>,
 }
 
+static SAN_ARMED: std::sync::atomic::AtomicBool = std::sync::atomic::AtomicBool::new(false);
+static SAN_CTX: std::sync::OnceLock<(String, PathBuf)> = std::sync::OnceLock::new();
+
+thread_local! {
+    static CURRENT_CASE: RefCell<Option<(String, String)>> = const { RefCell::new(None) };
+}
+
+/// remembers the case in flight on this thread (only when a sanitizer death callback is armed)
+pub fn set_current<C: Serialize>(sub: &str, case: &C) {
+    if SAN_ARMED.load(std::sync::atomic::Ordering::Relaxed) {
+        let js = serde_json::to_string(case).unwrap_or_default();
+        CURRENT_CASE.with(|c| *c.borrow_mut() = Some((sub.to_string(), js)));
+    }
+}
+
+extern "C" fn sanitizer_death() {
+    // runs on the faulting thread right before the sanitizer terminates the process
+    let (prop, root) = match SAN_CTX.get() {
+        Some(x) => x.clone(),
+        None => return,
+    };
+    let cur = CURRENT_CASE.with(|c| c.borrow().clone());
+    let (sub, case) = cur.unwrap_or_else(|| ("unknown".into(), "null".into()));
+    let dir = root.join("replays").join(&prop);
+    let _ = std::fs::create_dir_all(&dir);
+    let h = fnv(case.as_bytes());
+    let p = dir.join(format!("{sub}-asan-{h:016x}.json"));
+    let body = format!("{{\"property\": \"{prop}\", \"subcheck\": \"{sub}\", \"signature\": \"sanitizer-report\", \"detail\": \"AddressSanitizer report (see stderr of the run)\", \"case\": {case}}}");
+    let _ = std::fs::write(&p, body);
+    println!("VIOLATION property={} replay={}", prop, p.display());
+    println!("  subcheck={sub} signature=sanitizer-report");
+    use std::io::Write;
+    let _ = std::io::stdout().flush();
+}
+
+/// Arms `__sanitizer_set_death_callback` if the binary was built with a sanitizer runtime.
+/// Returns true when armed.
+pub fn arm_sanitizer_callback(property: &str, root: &std::path::Path) -> bool {
+    unsafe extern "C" {
+        #[linkage = "extern_weak"]
+        static __sanitizer_set_death_callback: *const std::ffi::c_void;
+    }
+    let sym: *const std::ffi::c_void = unsafe { __sanitizer_set_death_callback };
+    if sym.is_null() {
+        return false;
+    }
+    let _ = SAN_CTX.set((property.to_string(), root.to_path_buf()));
+    let f: extern "C" fn(extern "C" fn()) = unsafe { std::mem::transmute(sym) };
+    f(sanitizer_death);
+    SAN_ARMED.store(true, std::sync::atomic::Ordering::Relaxed);
+    true
+}
+
 thread_local! {
     static LAST_PANIC: RefCell<Option<String>> = const { RefCell::new(None) };
     static QUIET: Cell<bool> = const { Cell::new(false) };
@@ -311,6 +364,7 @@ impl Ctx {
                 let cell = RefCell::new(&mut rep);
                 let strat = strat_fn();
                 let r = runner.run(&strat, |case: C| {
+                    set_current(name, &case);
                     let v = match guarded(|| test(&case)) {
                         Ok(v) => v,
                         Err(p) => Verdict::Fail {
@@ -410,6 +464,7 @@ impl Ctx {
                 };
                 let mut reported: BTreeSet<String> = BTreeSet::new();
                 for case in block.iter() {
+                    set_current(name, case);
                     let v = match guarded(|| test(case)) {
                         Ok(v) => v,
                         Err(p) => Verdict::Fail {
